@@ -601,6 +601,10 @@ def permute_columns(tf, seed):
             perm = perm[1:] + perm[:1]
         feat = tf.feat_dict[s]
         fd[s] = feat[:, torch.tensor(perm, dtype=torch.long)] if isinstance(feat, torch.Tensor) else feat[:, perm]
+        if seed % 2 == 0 and isinstance(fd[s], torch.Tensor) and fd[s].dim() == 2:
+            # dense 2-D blocks in column-major layout (what torch.from_numpy(df[cols].to_numpy()) gives): same cells
+            from harness import stress
+            fd[s] = stress.fortran(fd[s])
         nd[s] = [names[q] for q in perm]
     return t['tf'].TensorFrame(fd, nd, tf.y)
 
